@@ -187,7 +187,8 @@ func genTopo(c *core.Case, minN, maxN int) meshTopo {
 type meshOpts struct {
 	infoClass int // 0 none, 1 a few listeners, 2 large service lists
 	withTun   bool
-	spread    bool // addresses spread over prefixes vs. one routing prefix
+	stub      func(i int) bool // routers configured as stub (nil = none)
+	spread    bool             // addresses spread over prefixes vs. one routing prefix
 	bigLabels bool
 }
 
@@ -232,6 +233,9 @@ func buildMesh(c *core.Case, t meshTopo, o meshOpts) *mesh {
 	for i := 0; i < t.n; i++ {
 		id := pool[(start+i)%len(pool)]
 		st := config.Store{}
+		if o.stub != nil && o.stub(i) {
+			st.Router.Stub = true
+		}
 		switch o.infoClass {
 		case 1:
 			st.Router.Listen = []string{"tcp://192.0.2.1:47369", "tcp://[2001:db8::1]:47369"}
